@@ -25,7 +25,7 @@ def serInst : Particle → Inst → List Node
   | .any _ _, .wild ns => ns
   | .seq ps _ _, .seqR rounds => serRounds ps rounds
   | .choice ps _ _, .choiceR rounds => serChoice ps rounds
-  | .all ps _, .allR members other _ => serList ps members ++ other
+  | .all ps _, .allR members other => serList ps members ++ other
   | .group p _ _, .groupR rounds => serGroup p rounds
   | _, _ => []
 
